@@ -6,7 +6,7 @@ CONSTANTS
   K2 = 0
   K3 = 0
   NVer = 3
-  ReqNames = {"1", "2f", "1_2", "1_3", "12_3", "4"}
+  ReqNames = {"1", "2f", "1_2", "12_3"}
   Emit = TRUE
 INVARIANT Inv
 CHECK_DEADLOCK FALSE
